@@ -7,29 +7,34 @@ Check (C08_total :
     In o [OLt; OLe; OGt; OGe] -> In (ty_of l) [TInt; TFloat] -> In (ty_of r) [TInt; TFloat] ->
     exists b, eval_cmp f o l r = Some (VBool b)).
 Print Assumptions C08_total.
+Print unit. (* ends the axiom block in the transcript *)
 
 Check (C08_order :
   forall (f : fn) (o : cop) (r : rel) (a b : value),
     rel_of_cop o = Some r -> finite_num a -> finite_num b ->
     exists t, eval_cmp f o a b = Some (VBool t) /\ (t = true <-> R_rel r (num_val a) (num_val b))).
 Print Assumptions C08_order.
+Print unit. (* ends the axiom block in the transcript *)
 
 Check (C08_order_sase :
   forall (o : cop) (r : rel) (a b : value),
     rel_of_cop o = Some r -> finite_num a -> finite_num b ->
     (compare_values a b o = true <-> R_rel r (num_val a) (num_val b))).
 Print Assumptions C08_order_sase.
+Print unit. (* ends the axiom block in the transcript *)
 
 Check (C08_ge_iff :
   forall (f : fn) (a b : value), finite_num a -> finite_num b ->
     (eval_cmp f OGe a b = Some (VBool true) <->
      eval_cmp f OGt a b = Some (VBool true) \/ num_val a = num_val b)).
 Print Assumptions C08_ge_iff.
+Print unit. (* ends the axiom block in the transcript *)
 
 Check (C08_cmp_int_float_exact :
   forall (i : Z) (x : f64), is_finite x = true -> (- 2 ^ 63 <= i < 2 ^ 63)%Z ->
     cmp_int_float i x = Some (Rcompare (IZR i) (B2R x))).
 Print Assumptions C08_cmp_int_float_exact.
+Print unit. (* ends the axiom block in the transcript *)
 
 (* the vocabulary of the statements, so that the pins cannot be weakened silently *)
 Print num_val.
